@@ -50,6 +50,7 @@ def run(repo: Repo, tier: str, res: CheckResult, seed: int = 0) -> None:
     seen_before_refusals(repo, m, res)
     mapped_names_not_tested_for_truth(repo, m, res)
     flag_dumper_emits_names_of_the_cases_only(repo, m, res)
+    representation_bound_by_a_lasting_predicate(repo, res)
     res.assumptions = list(ASSUMPTIONS)
 
 
@@ -1123,3 +1124,20 @@ def flag_dumper_emits_names_of_the_cases_only(repo: Repo, m: ModuleInfo, res: Ch
         res.add(Finding("C18", "FLAG.dumper-names-outside-cases", m.rel, f"FlagByListProvider._make_dumper.{cl.name}", nm,
                         f"the dumper returns `{nm}`, prepared outside the closure and not an element of the mapping of the cases: whether "
                         "the loader of the same configuration knows these names is not established", cl.lineno))
+
+
+def representation_bound_by_a_lasting_predicate(repo: Repo, res: CheckResult) -> None:
+    """enum_by_name(A, B, ...), flag_by_member_names(A, B, ...): ONE provider object, bound by bound_by_any to the predicates, serves
+    the loader AND the dumper of every listed class. If the predicate object stops matching after its first evaluations (operands
+    held as a one-shot iterator) the dumper already handed out keeps the chosen representation while the loader requested later
+    falls through to the default provider: dump by name, load by value. Audit shared with C10 (OP.one-shot-operands)."""
+    from . import c10
+    sub = CheckResult("C10")
+    c10.reiterable_sites(repo, sub)
+    res.evaluated("pred:representation-bound-by-lasting-predicate", True)
+    for f in sub.findings:
+        if "bound_by_any" in f.qualname or "facade/provider" in f.file:
+            res.add(Finding("C18", "PRED.representation-bound-by-one-shot-predicate", f.file, f.qualname, f.construct,
+                            "the representation providers (enum_by_name, enum_by_value, flag_by_member_names, ...) bind one provider to "
+                            "several classes through this predicate; " + f.message + " -- the dumper and the loader of one enum class "
+                            "then come from different providers (dumped by name, loaded by exact value): load(dump(m)) raises", f.line))
